@@ -373,13 +373,17 @@ def _outer(db, chk, m, cls):
     ta = db.mod("hta.trace_analysis")
     fac = ta.func("TraceAnalysis.get_gpu_kernel_breakdown")
     cs = [c for c in H.calls(fac) if isinstance(c.func, ast.Attribute) and c.func.attr == "get_gpu_kernel_breakdown"]
-    if len(cs) != 1:
-        raise AnalysisError("facade delegation not found")
-    bnd = H.bind_call(f3, cs[0])
-
     for _p, _src, _v in H.rebinds_of_params(fac, ["visualize", "duration_ratio", "num_kernels", "include_memory_kernels", "image_renderer"]):
         chk.ob("C05.R-facade-integrity", f"facade forwards parameter {_p} unmodified", _v == "default-if-none", ta.loc(fac), found=_src, accepted="no re-binding, or `if p is None: p = <default>`",
                why="`p = p or default` replaces legitimate falsy values (a threshold of 0, an empty selection) by the default")
+    if len(cs) != 1:
+        # the delegation is not one plain call (partial, map, a helper ...): decided by evaluating the wrapper with the analyzer hooked
+        from ..specs.discipline import check_facade_binding
+        check_facade_binding(db, chk, "C05.R3-facade", "TraceAnalysis.get_gpu_kernel_breakdown", BA, "BreakdownAnalysis.get_gpu_kernel_breakdown",
+                             returns=lambda I: PyTuple([Frame(("ktd", I.new_id())), Frame(("akd", I.new_id()))]))
+        return
+    bnd = H.bind_call(f3, cs[0])
+
     for pn in ("visualize", "duration_ratio", "num_kernels", "include_memory_kernels", "image_renderer"):
         chk.ob("C05.R3-facade", f"facade argument -> parameter {pn}", H.name_id(bnd.get(pn)) == pn, ta.loc(cs[0]), found=ast.unparse(bnd[pn]) if pn in bnd else None, accepted=pn,
                why="the wrapper passes positionally: a swapped position feeds num_kernels as duration_ratio")
